@@ -36,7 +36,8 @@ VARIABLES
   \* ---- host API goroutine
   hpc,        \* program counter
   call,       \* number of calls begun (ghost call id of the current call)
-  hop,        \* current op: [kind, sa (SyncAfterExec), cb ("none"|"ok"|"fail"), lost (ghost: done was closed at begin)]
+  hop,        \* current op: [kind, sa (SyncAfterExec), cb ("none"|"ok"|"fail"), big (request exceeds one packet),
+              \*              lost (ghost: done was closed at begin)]
   hret,       \* result class pending at "ret"
   hres,       \* ghost: sequence of [call, op, r, lost]
   ctx,        \* "live" | "cancelled"
@@ -61,9 +62,9 @@ netV  == <<h2c, c2h, sockH, sockC>>
 contV == <<cSendCh, cRecvCh, cSL, cRL, cDone, spc, scont, scall, sSyncAfter, sSynced, child>>
 vars  == <<hostV, netV, contV, bad>>
 
-Cmd(k, c, sa) == [t |-> "cmd", k |-> k, call |-> c, sa |-> sa]
+Cmd(k, c, sa) == [t |-> "cmd", k |-> k, call |-> c, sa |-> sa, big |-> FALSE]
 Reply(k, c)   == [t |-> "rep", k |-> k, call |-> c]
-NoOp == [kind |-> "none", sa |-> FALSE, cb |-> "none", lost |-> FALSE]
+NoOp == [kind |-> "none", sa |-> FALSE, cb |-> "none", big |-> FALSE, lost |-> FALSE]
 
 Init ==
   /\ hpc = "idle" /\ call = 0 /\ hop = NoOp /\ hret = "none" /\ hres = <<>> /\ ctx = "live"
@@ -80,10 +81,10 @@ Init ==
 \* the call has computed its result class r; the return itself is a separate step (HostReturn)
 Ret(r) == hpc' = "ret" /\ hret' = r
 
-HostBegin(k, sa, cb) ==
+HostBegin(k, sa, cb, big) ==
   /\ hostAlive /\ hpc = "idle"
   /\ call' = call + 1
-  /\ hop' = [kind |-> k, sa |-> sa, cb |-> cb, lost |-> hDone]
+  /\ hop' = [kind |-> k, sa |-> sa, cb |-> cb, big |-> big, lost |-> hDone]
   /\ hpc' = "send" /\ ctx' = "live"
   /\ UNCHANGED <<hret, hres, hSendCh, hRecvCh, hSL, hRL, hDone, hostAlive, netV, contV, bad>>
 
@@ -109,7 +110,10 @@ Stale(m) == IF m.call # call THEN {"stale_reply"} ELSE {}
 
 HostSendFirst ==
   /\ hostAlive /\ hpc = "send"
-  /\ Put(hop.kind, hop.sa, "recv1", "err")
+  /\ \/ /\ hDone /\ Ret("err") /\ UNCHANGED hSendCh
+     \/ /\ Live /\ Len(hSendCh) = 0
+        /\ hSendCh' = <<[Cmd(hop.kind, call, hop.sa) EXCEPT !.big = hop.big]>>
+        /\ hpc' = "recv1" /\ UNCHANGED hret
   /\ UNCHANGED <<call, hop, hres, ctx, hRecvCh, hSL, hRL, hDone, hostAlive, netV, contV, bad>>
 
 HostRecvFirst ==
@@ -203,12 +207,17 @@ HostSLTake ==
 HostSLExit ==
   /\ hostAlive /\ hSL = <<"idle">> /\ hDone /\ hSL' = <<"exit">>
   /\ UNCHANGED <<hpc, call, hop, hret, hres, ctx, hSendCh, hRecvCh, hRL, hDone, hostAlive, netV, contV, bad>>
+HostSLTooBig ==                                  \* SendMsg refuses an oversize command before writing anything:
+  /\ hostAlive /\ hSL[1] = "hold" /\ hSL[2].big   \* the caller gets an error reply, the container is not involved
+  /\ \/ /\ Len(hRecvCh) = 0 /\ hRecvCh' = <<Reply("err", hSL[2].call)>> /\ hSL' = <<"idle">>
+     \/ /\ hDone /\ hSL' = <<"exit">> /\ UNCHANGED hRecvCh
+  /\ UNCHANGED <<hpc, call, hop, hret, hres, ctx, hSendCh, hRL, hDone, hostAlive, netV, contV, bad>>
 HostSLSend ==
-  /\ hostAlive /\ hSL[1] = "hold" /\ sockH = "open" /\ sockC = "open"
+  /\ hostAlive /\ hSL[1] = "hold" /\ ~hSL[2].big /\ sockH = "open" /\ sockC = "open"
   /\ h2c' = Append(h2c, hSL[2]) /\ hSL' = <<"idle">>
   /\ UNCHANGED <<hpc, call, hop, hret, hres, ctx, hSendCh, hRecvCh, hRL, hDone, hostAlive, c2h, sockH, sockC, contV, bad>>
 HostSLErr ==
-  /\ hostAlive /\ hSL[1] = "hold" /\ (sockH = "closed" \/ sockC = "closed")
+  /\ hostAlive /\ hSL[1] = "hold" /\ ~hSL[2].big /\ (sockH = "closed" \/ sockC = "closed")
   /\ hDone' = TRUE /\ hSL' = <<"exit">>
   /\ UNCHANGED <<hpc, call, hop, hret, hres, ctx, hSendCh, hRecvCh, hRL, hostAlive, netV, contV, bad>>
 
@@ -391,14 +400,15 @@ Pdeathsig ==                                    \* SIGKILL to init on parent dea
 
 -----------------------------------------------------------------------------
 HostApiNext ==
-  \/ \E k \in Ops : \E sa \in BOOLEAN : \E cb \in {"none", "ok", "fail"} :
+  \/ \E k \in Ops : \E sa \in BOOLEAN : \E cb \in {"none", "ok", "fail"} : \E big \in BOOLEAN :
         /\ call < MaxCalls
         /\ (k # "exec" => sa = FALSE /\ cb = "none")
-        /\ HostBegin(k, sa, cb)
+        /\ (big => k \in {"exec", "open"})         \* requests that can be made arbitrarily large
+        /\ HostBegin(k, sa, cb, big)
   \/ HostReturn \/ HostSendFirst \/ HostRecvFirst \/ HostCallback
   \/ HostK1Send \/ HostK1Recv \/ HostNoPid1S \/ HostNoPid1R \/ HostNoPid2S \/ HostNoPid2R
   \/ HostOkSend \/ HostWaitDone \/ HostWaitCtx \/ HostK2Send \/ HostK2Recv \/ HostWaitResult \/ HostK3Send
-HostLoopNext == HostSLTake \/ HostSLExit \/ HostSLSend \/ HostSLErr \/ HostRLRecv \/ HostRLErr \/ HostRLPush
+HostLoopNext == HostSLTake \/ HostSLExit \/ HostSLTooBig \/ HostSLSend \/ HostSLErr \/ HostRLRecv \/ HostRLErr \/ HostRLPush
 ContLoopNext == ContRLRecv \/ ContRLErr \/ ContRLPush \/ ContSLTake \/ ContSLSend \/ ContSLErr
 ContSrvNext ==
   \/ ContSendDone \/ ContSendFail \/ ContRecvFail
